@@ -25,6 +25,8 @@ var c08Recs = []mockq.Rec{
 	{Line: ``, Labels: []mockq.KV{{K: "b", V: `y`}, {K: "a", V: `x`}}},
 	{Line: `p`, Labels: []mockq.KV{{K: "a", V: `x`}, {K: "b", V: ``}}},
 	{Line: `p`, Labels: []mockq.KV{{K: "a", V: `x`}}},
+	{Line: `{"a":1}`, Labels: nil},
+	{Line: `{"a":"1"}`, Labels: nil},
 }
 
 type c08Input struct {
@@ -45,6 +47,7 @@ func c08Queries() []*refmodel.LogQuery {
 		{Stages: []refmodel.Stage{&refmodel.Drop{Items: []refmodel.DKItem{{Label: "msg"}, {Label: "b"}}}}},
 		{Stages: []refmodel.Stage{&refmodel.JSONStage{}, &refmodel.Drop{Items: []refmodel.DKItem{{Label: "a"}, {Label: "msg"}}}}},
 		{Stages: []refmodel.Stage{&refmodel.LineFilter{Op: "!=", Value: "q"}, &refmodel.Keep{Items: []refmodel.DKItem{{Label: "b"}}}}},
+		{Stages: []refmodel.Stage{&refmodel.JSONStage{}, &refmodel.Keep{Items: []refmodel.DKItem{{Label: "a"}}}}},
 	}
 }
 
